@@ -77,8 +77,8 @@ static Result run_codec(const Case &c) {
         bool in_range = d >= 0 && d < n;
         if (!in_range) {
             if (o.rc >= 0) r.fail("reconstruct accepted out-of-range destination " + std::to_string(d) + " rc=" + std::to_string(o.rc));
-            else if (!o.untouched) r.fail("reconstruct wrote to the output although it rejected destination " + std::to_string(d));
             r.cls("dest_out_of_range");
+            if (!o.untouched) r.cls("rejected_but_output_written");     // not demanded by the statement; recorded only
             continue;
         }
         if (o.rc == 0) {
@@ -462,9 +462,28 @@ static Result run_c20(const Case &c) {
         if (kd) { any_dmg = true; if (present[i] < g.k) dmg_data = true; r.cls("dmg_kind_" + std::to_string(kd)); }
         bufs.push_back(std::move(f));
     }
+    // History before the decode, in the SAME buffers: `pre` lists positions that are validated (and found
+    // good) while still undamaged; the damage is then applied in place. With pre_heal the order is reversed:
+    // the damaged content is validated first, then healed in place (all fragments valid at decode time).
+    std::vector<int> pre = c.ints("pre");
+    bool heal = c.get("pre_heal") != 0 && !pre.empty();
+    std::vector<std::vector<uint8_t>> first;           // content the buffers hold during the pre-validation
+    for (size_t i = 0; i < present.size(); i++) first.push_back(heal ? bufs[i] : s.frags[present[i]]);
     std::vector<const std::vector<uint8_t> *> frs;
-    for (auto &b : bufs) frs.push_back(&b);
+    for (auto &b : (pre.empty() ? bufs : first)) frs.push_back(&b);
     FragSet fs; fs.build(frs, align);
+    if (!pre.empty()) {
+        for (int pos : pre) {
+            if (pos < 0 || pos >= fs.count) continue;
+            int inv = is_invalid_fragment(in.desc, fs.ptrs[pos]);
+            bool want_inv = ref::fragment_invalid(g, running, first[pos].data());
+            if ((inv != 0) != want_inv) r.fail("pre-validation verdict of fragment at position " + std::to_string(pos) + " differs from the reference");
+        }
+        // now rewrite the buffers in place with what decode must see
+        if (heal) { for (size_t i = 0; i < present.size(); i++) bufs[i] = s.frags[present[i]]; vmask = maskof(present, n); any_dmg = false; dmg_data = false; }
+        for (int i = 0; i < fs.count; i++) { memcpy(fs.ptrs[i], bufs[i].data(), bufs[i].size()); fs.copies[i] = bufs[i]; }
+        r.cls(heal ? "prevalidated_then_healed" : "prevalidated_then_damaged");
+    }
     DecodeOut d = decode(in.desc, fs, s.fraglen, 1);
     int missing = n - __builtin_popcountll(vmask);
     bool within = missing <= t;
@@ -479,7 +498,7 @@ static Result run_c20(const Case &c) {
     } else if (d.rc > 0) r.fail("positive return code");
     else if (must_exact) r.fail("ERROR-THOUGH-SUFFICIENT: decode(force=1) rc=" + std::to_string(d.rc) + " although the valid fragments are within tolerance (missing=" + std::to_string(missing) + ", tolerance=" + std::to_string(t) + ")");
     r.cls(d.rc == 0 ? "decode_ok" : "decode_err");
-    r.nontrivial = any_dmg && dmg_data;
+    r.nontrivial = (any_dmg && dmg_data) || heal;
     return r;
 }
 static Case gen_c20() {
@@ -507,6 +526,19 @@ static Case gen_c20() {
         val[pos] = (int)pick(0, 1 << 16);
     }
     c.setv("dmg_kind", kind); c.setv("dmg_arg", arg); c.setv("dmg_val", val);
+    // one third of the cases validate some fragments in place before they are damaged (or healed)
+    std::vector<int> pre;
+    if (!present.empty() && coin(1, 3)) {
+        int np = (int)pick(1, std::min<int64_t>(4, (int64_t)present.size()));
+        for (int j = 0; j < np; j++) pre.push_back((int)pick(0, (int64_t)present.size() - 1));
+        if (coin(2, 3)) {        // end on a damaged position, preferably the first one the decoder will look at
+            int target = -1;
+            for (size_t i = 0; i < kind.size(); i++) if (kind[i] == 1) { target = (int)i; break; }
+            if (target >= 0) pre.push_back(target);
+        }
+    }
+    c.setv("pre", pre);
+    c.set("pre_heal", (!pre.empty() && coin(1, 4)) ? 1 : 0);
     return c;
 }
 
